@@ -672,6 +672,13 @@ class Background2D:
         interp_values = interp_func(yx_indices, n_neighbors=n_neighbors,
                                     power=power, eps=eps, reg=reg)
 
+        # the IDW values are weighted means of the good mesh values;
+        # keep them within the range of those values, which round-off
+        # in the weighted mean can otherwise exceed (e.g., for constant
+        # data)
+        interp_values = np.clip(interp_values, np.min(data[mask]),
+                                np.max(data[mask]))
+
         interp_data = np.copy(data)  # copy to avoid modifying the input data
         interp_data[idx] = interp_values
 
